@@ -7,7 +7,8 @@ FX = ['-DFIXED_INPUT'] if _os.environ.get('VERIF_EXP_FIXED') else []
 Q = ['T_Seq', 'T_SeqX1', 'T_SeqX', 'T_Cho', 'T_SeqOf', 'T_Oct', 'T_Bits', 'T_IntX', 'T_SetOf', 'T_Set', 'T_Enum']
 for t, k in combos():
     n = 4 if t in ('T_Seq', 'T_SeqX', 'T_Cho', 'T_SeqOf', 'T_SetOf', 'T_Set') else 5
-    tiers = ('quick', 'thorough') if t in Q else ('thorough',)
+    # T_IntSemi/oer is quick since its thorough run found the zero-length over-read of INTEGER_decode_oer (fixed in /repo)
+    tiers = ('quick', 'thorough') if t in Q or (t, k) == ('T_IntSemi', 'oer') else ('thorough',)
     HARNESSES.append(typed(H, 'dec_%s_%s' % (t, k), 'typed/dec_arbitrary.c', t, k, tiers=tiers, leak=True,
                            defines=['-DNBYTES=%d' % n] + FX, functions=['%s decoder of %s; asn_check_constraints; der_encode; free' % (k, t)],
                            inputs='%d arbitrary octets in an exact-size heap object, symbolic size 0..%d' % (n, n), bounds='input <= %d octets' % n,
